@@ -15,6 +15,7 @@
 #include <rime/dict/db.h>
 #include <rime/dict/db_utils.h>
 #include <rime/dict/level_db.h>
+#include <rime/dict/text_db.h>
 #include <rime/dict/user_db.h>
 #include <rime/lever/user_dict_manager.h>
 
@@ -38,6 +39,9 @@ static void use(const std::string& inst) {
   dep().sync_dir = rime::path(g_root + "/sync/" + inst.substr(0, inst.size() - 1) + "_");
   dep().user_id = inst;
   rime::Registry::instance().Register("userdb", new rime::UserDbComponent<rime::LevelDb>);
+  // the format user dictionaries had before: plain text files <name>.userdb.txt in the user data directory
+  // (dict_module.cc leaves "legacy_userdb" to plugins; UserDictManager::UpgradeUserDict converts what it finds)
+  rime::Registry::instance().Register("legacy_userdb", new rime::UserDbComponent<rime::TextDb>);
   g_cur = inst;
 }
 
@@ -86,9 +90,15 @@ static std::string dump(const std::string& n) {
   return out + buf;
 }
 
-static std::string cat(const std::string& f) {
+static std::string cat_path(const std::string& path);
+static std::string cat(const std::string& f) { return cat_path(file_path(f)); }
+static std::string legacy_path(const std::string& inst, const std::string& n) {
+  return g_root + "/inst/" + inst + "/" + n + ".userdb.txt";
+}
+
+static std::string cat_path(const std::string& path) {
   std::string c;
-  if (!read_file(file_path(f), &c)) return "nofile";
+  if (!read_file(path, &c)) return "nofile";
   std::string out = "file";
   size_t i = 0;
   while (i < c.size()) {                      // getline semantics: no line after a trailing '\n'
@@ -258,6 +268,46 @@ int main(int argc, char** argv) {
       std::error_code ec;
       if (fs::exists(snap)) fs::copy_file(snap, file_path(t[3]), fs::copy_options::overwrite_existing, ec);
       out = std::string(ok ? "ok" : "fail") + " order=" + (order.empty() ? "-" : order);
+    } else if (op == "plant" && t.size() == 4) {
+      // file F appears in the sync directory as the snapshot of dictionary N made by installation P (which may never
+      // have run here: another machine's, an old version's, a damaged one)
+      use(t[2]);
+      fs::path dir(dep().user_data_sync_dir().string());
+      std::error_code ec;
+      fs::create_directories(dir, ec);
+      fs::copy_file(file_path(t[1]), dir / (t[3] + ".userdb.txt"), fs::copy_options::overwrite_existing, ec);
+      out = ec ? "fail" : "ok";
+    } else if (op == "legacy" && t.size() == 4) {
+      // file F is found in installation I's user data directory as the old-format dictionary N.userdb.txt
+      use(t[2]);
+      std::error_code ec;
+      fs::copy_file(file_path(t[1]), legacy_path(t[2], t[3]), fs::copy_options::overwrite_existing, ec);
+      out = ec ? "fail" : "ok";
+    } else if (op == "lcat" && t.size() == 3) {
+      out = cat_path(legacy_path(t[1], t[2]));
+    } else if (op == "upgrade" && t.size() == 3) {
+      use(t[1]);
+      rime::UserDictManager mgr(&dep());
+      out = mgr.UpgradeUserDict(t[2]) ? "ok" : "fail";
+    } else if (op == "syncall" && t.size() == 2) {
+      use(t[1]);
+      // what SynchronizeAll will meet: the user dictionaries of the installation and the peer directories, both in the
+      // order the directory iterator yields them
+      std::string names, order;
+      for (fs::directory_iterator it(fs::path(dep().user_data_dir.string())), end; it != end; ++it) {
+        std::string n = it->path().filename().string();
+        if (n.size() > 7 && n.compare(n.size() - 7, 7, ".userdb") == 0) names += (names.empty() ? "" : ",") + n.substr(0, n.size() - 7);
+      }
+      fs::path sd(dep().sync_dir.string());
+      if (fs::exists(sd)) {
+        for (fs::directory_iterator it(sd), end; it != end; ++it) {
+          if (!fs::is_directory(it->path())) continue;
+          order += (order.empty() ? "" : ",") + it->path().filename().string();
+        }
+      }
+      rime::UserDictManager mgr(&dep());
+      bool ok = mgr.SynchronizeAll();
+      out = std::string(ok ? "ok" : "fail") + " names=" + (names.empty() ? "-" : names) + " order=" + (order.empty() ? "-" : order);
     } else if (op == "export" && t.size() == 4) {
       use(t[1]);
       rime::UserDictManager mgr(&dep());
